@@ -207,7 +207,7 @@ func vfLeaf(s vfLeafSpec) *Certificate {
 		ExtKeyUsage: []x509.ExtKeyUsage{x509.ExtKeyUsageServerAuth, x509.ExtKeyUsageClientAuth},
 	}
 	for _, n := range s.Names {
-		if ip := net.ParseIP(n); ip != nil {
+		if ip := net.ParseIP(strings.TrimSuffix(strings.TrimPrefix(n, "["), "]")); ip != nil {
 			tmpl.IPAddresses = append(tmpl.IPAddresses, ip)
 		} else {
 			tmpl.DNSNames = append(tmpl.DNSNames, n)
